@@ -39,6 +39,8 @@ enum Content {
     Scratch,
     /// a JSON document (not Lua)
     Json,
+    /// something that already sits at an output path before the run
+    Raw(String),
     NotLua,
 }
 
@@ -66,6 +68,7 @@ impl Content {
             Content::Semicolon => b";\n".to_vec(),
             Content::Scratch => b"-- scratch pad\nvalue = 1 + 1\n".to_vec(),
             Content::Json => b"{\"name\": \"demo\"}\n".to_vec(),
+            Content::Raw(text) => text.clone().into_bytes(),
             Content::NotLua => b"just some text\n".to_vec(),
         }
     }
@@ -84,6 +87,13 @@ struct Scenario {
     bundle: bool,
     /// bundle + token-preserving generator + a rule that is not idempotent (in-place runs)
     stamp: bool,
+    /// `rules: []` with the token-preserving generator: the generated code equals the source
+    identity: bool,
+    /// how the input / output are spelled in the options (not normalised)
+    input_arg: String,
+    output_arg: Option<String>,
+    /// files that exist at output paths before the run
+    prepopulated: Vec<String>,
     /// files expected to fail (by themselves or through a declared dependency)
     faulty: Vec<String>,
     shape: &'static str,
@@ -121,6 +131,24 @@ fn is_lua(path: &str) -> bool {
         Path::new(path).extension().and_then(|e| e.to_str()),
         Some("lua") | Some("luau")
     )
+}
+
+static CASE_SENSITIVE_DISK: std::sync::atomic::AtomicBool = std::sync::atomic::AtomicBool::new(false);
+
+fn case_sensitive_disk() -> bool {
+    CASE_SENSITIVE_DISK.load(std::sync::atomic::Ordering::Relaxed)
+}
+
+/// are `Probe.txt` and `probe.txt` two files in this directory?
+fn probe_case_sensitivity(root: &Path) -> bool {
+    let dir = root.join("case_probe");
+    let _ = std::fs::create_dir_all(&dir);
+    let _ = std::fs::write(dir.join("Probe.txt"), b"upper");
+    let _ = std::fs::write(dir.join("probe.txt"), b"lower");
+    let distinct = std::fs::read(dir.join("Probe.txt")).map(|b| b == b"upper").unwrap_or(false);
+    let _ = std::fs::remove_dir_all(&dir);
+    CASE_SENSITIVE_DISK.store(distinct, std::sync::atomic::Ordering::Relaxed);
+    distinct
 }
 
 fn generate(seed: u64, id: u64, disk: bool) -> Scenario {
@@ -360,6 +388,77 @@ fn generate(seed: u64, id: u64, disk: bool) -> Scenario {
             }
         }
     }
+    // ---- a third generator (ids and the draws above stay what they were)
+    let mut rng3 = Rng::new(seed.wrapping_mul(15_485_863).wrapping_add(id).wrapping_add(0x5EED));
+    let input_is_dir = !shape.starts_with("file") && shape != "single-file-matrix";
+    // paths that differ only by ASCII case (on disk only when the file system tells them apart)
+    if input_is_dir && input == "src" && rng3.chance(1, 4) && (!disk || case_sensitive_disk()) {
+        if rng3.chance(2, 3) {
+            files.entry("src/Config.lua".into()).or_insert(Content::Good(60));
+            files.entry("src/config.lua".into()).or_insert(Content::Good(61));
+        }
+        if rng3.chance(1, 2) {
+            files.entry("src/Shared/Init.luau".into()).or_insert(Content::Good(62));
+            files.entry("src/shared/init.luau".into()).or_insert(Content::Good(63));
+        }
+    }
+    let identity = !bundle && rng3.chance(1, 3);
+    // the output location already holds files at the mirrored paths
+    let mut prepopulated = Vec::new();
+    let separate_output = match output.as_deref() {
+        Some(out) => {
+            let out = out.trim_end_matches('/');
+            out != input && !out.starts_with(&format!("{}/", input)) && !input.starts_with(&format!("{}/", out))
+        }
+        None => false,
+    };
+    if separate_output && rng3.chance(1, 2) {
+        let out = output.clone().unwrap();
+        let targets: Vec<(String, String)> = if input_is_dir {
+            files
+                .iter()
+                .filter(|(p, _)| is_lua(p) && p.starts_with(&format!("{}/", input)))
+                .map(|(p, _)| (p.clone(), format!("{}/{}", out, &p[input.len() + 1..])))
+                .collect()
+        } else if shape == "file->file" {
+            vec![(input.clone(), out.clone())]
+        } else {
+            Vec::new()
+        };
+        for (source, target) in targets {
+            if files.contains_key(&target) || !rng3.chance(2, 3) {
+                continue;
+            }
+            // an ancestor of the target may be a plain file in the unwritable-destination scenario
+            let text = match rng3.below(3) {
+                0 => "-- an older output that is much longer than what the run will write here\nlocal stale = 'stale stale stale stale stale'\nreturn stale\n".to_owned(),
+                1 => "x".to_owned(),
+                _ => String::from_utf8_lossy(&files[&source].bytes()).into_owned() + "-- stale tail\n",
+            };
+            files.insert(target.clone(), Content::Raw(text));
+            prepopulated.push(target);
+        }
+    }
+    // non-normalised spellings of the input and output arguments
+    let first = |p: &str| p.split('/').next().unwrap_or("x").to_owned();
+    let spell = |rng: &mut Rng, p: &str, directory: bool| -> String {
+        if p.ends_with('/') {
+            return p.to_owned();
+        }
+        match rng.below(if directory { 8 } else { 6 }) {
+            0 | 1 | 2 => p.to_owned(),
+            3 | 4 => format!("./{}", p),
+            5 => format!("{}/../{}", first(p), p),
+            6 => format!("{}/.", p),
+            _ => format!("{}/", p),
+        }
+    };
+    let input_arg = spell(&mut rng3, &input, input_is_dir);
+    let output_arg = output.as_ref().map(|out| {
+        let directory = files.keys().any(|k| k.starts_with(&format!("{}/", out)))
+            || (!files.contains_key(out) && !out.rsplit('/').next().unwrap_or("").contains('.'));
+        spell(&mut rng3, out, directory)
+    });
     let fail_fast = rng.chance(1, 4);
     let stamp = bundle && (shape == "dir-in-place" || shape == "dir->itself") && rng.chance(1, 2);
     Scenario {
@@ -371,12 +470,23 @@ fn generate(seed: u64, id: u64, disk: bool) -> Scenario {
         fail_fast,
         bundle,
         stamp,
+        identity,
+        input_arg,
+        output_arg,
+        prepopulated,
         faulty,
         shape,
     }
 }
 
-fn config_text(bundle: bool, stamp: bool) -> String {
+fn config_of(scenario: &Scenario) -> String {
+    config_text3(scenario.bundle, scenario.stamp, scenario.identity)
+}
+
+fn config_text3(bundle: bool, stamp: bool, identity: bool) -> String {
+    if identity {
+        return r#"{ "rules": [], "generator": "retain_lines" }"#.to_owned();
+    }
     if stamp {
         r#"{ "rules": [{ "rule": "append_text_comment", "text": "stamp" }], "generator": "retain_lines", "bundle": { "require_mode": "path" } }"#
             .to_owned()
@@ -389,8 +499,8 @@ fn config_text(bundle: bool, stamp: bool) -> String {
 }
 
 fn options(scenario: &Scenario) -> Options {
-    let mut options = Options::new(&scenario.input).with_configuration_at(CONFIG);
-    if let Some(output) = scenario.output.as_ref() {
+    let mut options = Options::new(&scenario.input_arg).with_configuration_at(CONFIG);
+    if let Some(output) = scenario.output_arg.as_ref() {
         options = options.with_output(output);
     }
     if scenario.fail_fast {
@@ -429,7 +539,7 @@ fn run_memory(scenario: &Scenario, skip: &[String]) -> Value {
         resources.write(path, &text).unwrap();
         before.insert(path.clone(), text);
     }
-    let config = config_text(scenario.bundle, scenario.stamp);
+    let config = config_of(scenario);
     resources.write(CONFIG, &config).unwrap();
     before.insert(CONFIG.to_owned(), config);
     let outcome = catch_unwind(AssertUnwindSafe(|| darklua_core::process(&resources, options(scenario))));
@@ -487,7 +597,7 @@ fn run_disk(scenario: &Scenario, skip: &[String], root: &Path) -> Value {
         }
         let _ = std::fs::write(&full, content.bytes());
     }
-    std::fs::write(root.join(CONFIG), config_text(scenario.bundle, scenario.stamp)).unwrap();
+    std::fs::write(root.join(CONFIG), config_of(scenario)).unwrap();
     let (before, dirs_before) = read_tree(root);
     std::env::set_current_dir(root).unwrap();
     let resources = Resources::from_file_system();
@@ -514,23 +624,107 @@ fn describe(scenario: &Scenario) -> Value {
         "fail_fast": scenario.fail_fast,
         "bundle": scenario.bundle,
         "stamp": scenario.stamp,
+        "identity": scenario.identity,
+        "input_arg": scenario.input_arg,
+        "output_arg": scenario.output_arg,
+        "prepopulated": scenario.prepopulated,
         "faulty": scenario.faulty,
         "kinds": scenario.files.iter().map(|(p, c)| (p.clone(), Value::String(format!("{:?}", c)))).collect::<serde_json::Map<_, _>>(),
         "extra_dirs": scenario.extra_dirs,
     })
 }
 
+/// the output location when it is separate from the input
+fn separate_output(scenario: &Scenario) -> Option<String> {
+    let out = scenario.output.as_deref()?.trim_end_matches('/').to_owned();
+    let input = &scenario.input;
+    if out == *input || out.starts_with(&format!("{}/", input)) || input.starts_with(&format!("{}/", out)) {
+        None
+    } else {
+        Some(out)
+    }
+}
+
+/// run, edit a source, run, restore it, run: the tree afterwards (same resources all along)
+fn run_memory_sequence(scenario: &Scenario, victim: &str) -> Value {
+    let resources = Resources::from_memory();
+    for (path, content) in &scenario.files {
+        resources.write(path, &String::from_utf8_lossy(&content.bytes())).unwrap();
+    }
+    resources.write(CONFIG, &config_of(scenario)).unwrap();
+    let original = resources.get(victim).unwrap_or_default();
+    let outcome = catch_unwind(AssertUnwindSafe(|| {
+        let _ = darklua_core::process(&resources, options(scenario));
+        resources.write(victim, &format!("{}local edited_in_between = 1\n", original)).unwrap();
+        let _ = darklua_core::process(&resources, options(scenario));
+        resources.write(victim, &original).unwrap();
+        darklua_core::process(&resources, options(scenario)).is_ok()
+    }));
+    let mut after = BTreeMap::new();
+    for path in resources.walk("") {
+        after.insert(path.display().to_string(), hex(resources.get(&path).unwrap_or_default().as_bytes()));
+    }
+    json!({ "victim": victim, "ok": outcome.unwrap_or(false), "after": after })
+}
+
+fn run_disk_sequence(scenario: &Scenario, victim: &str, root: &Path) -> Value {
+    let first = run_disk(scenario, &[], root);
+    if first.get("items").is_none() {
+        return json!({ "victim": victim, "ok": false, "after": first["after"] });
+    }
+    let original = std::fs::read(root.join(victim)).unwrap_or_default();
+    std::env::set_current_dir(root).unwrap();
+    let resources = Resources::from_file_system();
+    let outcome = catch_unwind(AssertUnwindSafe(|| {
+        let mut edited = original.clone();
+        edited.extend_from_slice(b"local edited_in_between = 1\n");
+        std::fs::write(victim, &edited).unwrap();
+        let _ = darklua_core::process(&resources, options(scenario));
+        std::fs::write(victim, &original).unwrap();
+        darklua_core::process(&resources, options(scenario)).is_ok()
+    }));
+    std::env::set_current_dir("/").unwrap();
+    let (after, _) = read_tree(root);
+    json!({ "victim": victim, "ok": outcome.unwrap_or(false), "after": after })
+}
+
 fn run_scenario(scenario: &Scenario, disk_root: Option<&Path>) -> Value {
     let mut record = describe(scenario);
+    // the same run WITHOUT the files that were already sitting at output paths
+    let output_dir = separate_output(scenario);
+    let under_output: Vec<String> = scenario.prepopulated.clone();
+    // a healthy Lua file of the input to edit and restore between runs
+    let victim = scenario
+        .files
+        .iter()
+        .find(|(p, c)| {
+            matches!(c, Content::Good(_))
+                && is_lua(p)
+                && (*p == &scenario.input || p.starts_with(&format!("{}/", scenario.input)))
+        })
+        .map(|(p, _)| p.clone());
+    let sequence = output_dir.is_some() && !scenario.fail_fast && !scenario.stamp;
     match disk_root {
         None => {
             record["full"] = run_memory(scenario, &[]);
             record["without_faulty"] = run_memory(scenario, &scenario.faulty);
+            if !under_output.is_empty() {
+                record["clean_output"] = run_memory(scenario, &under_output);
+            }
+            if let (true, Some(victim)) = (sequence, victim.as_ref()) {
+                record["sequence"] = run_memory_sequence(scenario, victim);
+            }
         }
         Some(root) => {
             let case_root = root.join(format!("case_{}", scenario.id));
             record["full"] = run_disk(scenario, &[], &case_root.join("full"));
             record["without_faulty"] = run_disk(scenario, &scenario.faulty, &case_root.join("without"));
+            if !under_output.is_empty() {
+                record["clean_output"] = run_disk(scenario, &under_output, &case_root.join("clean"));
+            }
+            if let (true, Some(victim)) = (sequence, victim.as_ref()) {
+                record["sequence"] = run_disk_sequence(scenario, victim, &case_root.join("sequence"));
+            }
             let _ = std::fs::remove_dir_all(&case_root);
         }
     }
@@ -754,6 +948,8 @@ fn main() {
         "disk" => {
             let root = root.expect("--root DIR");
             assert!(root.starts_with("/tmp"), "scenario directories must live under /tmp");
+            std::fs::create_dir_all(&root).ok();
+            println!("{}", json!({ "case_sensitive_file_system": probe_case_sensitivity(&root) }));
             for id in 0..count {
                 let scenario = generate(seed, id, true);
                 println!("{}", run_scenario(&scenario, Some(&root)));
@@ -767,6 +963,10 @@ fn main() {
         "one" => {
             let id = arg_u64(&args, "--case", 0);
             let disk = root.is_some();
+            if let Some(root) = root.as_ref() {
+                std::fs::create_dir_all(root).ok();
+                probe_case_sensitivity(root);
+            }
             let scenario = generate(seed, id, disk);
             println!("{}", run_scenario(&scenario, root.as_deref()));
         }
